@@ -137,10 +137,10 @@ def main():
             "name": "vsim",
             "path": "sim/",
             "serves_properties": [c["property_id"] for c in checks],
-            "kind_free_text": "hand-written deterministic simulator: one PRNG value decides world, operation history, schedule and fault plan of a run (plan phase), execution is PRNG-free against the real vibrato code through fault-injecting Read/Write stubs; seeded search over many runs on all cores, smallest-failing-run verdict, delta-debugged replay files",
+            "kind_free_text": "hand-written deterministic simulator: one PRNG value decides world, operation history, schedule and fault plan of a run (plan phase), execution is PRNG-free against the real vibrato code through fault-injecting Read/Write stubs; seeded search over many runs on all cores, smallest-failing-run verdict, delta-debugged replay files. Hash iteration order of every hashbrown map in vibrato is seeded per run through ahash's own RandomState::set_random_source (sim/vendor/ahash = registry copy of ahash 0.7.8 plus one re-export line, patched in the simulator's manifest only). The simulator proper runs in a child process: an abort of the code under test (failed allocation, stack overflow) is reported as a violation with the plan of the run that caused it. C04 additionally runs real threads under Miri's seeded scheduler; C05/C07 exchange images between a portable and an AVX2 build of the simulator",
         }],
         "checks": checks,
-        "notes": "add_only=false because hook H5 rewrites one line: the header of the template-trial loop in DualConnector::remove_feature_templates_greedy now iterates a cfg-selected source (with the guard off it is the original expression). Everything else the hook commits contain is added code under #[cfg(vibrato_verif)]. See DESIGN.md sections 4 and 7 for hooks, fixes and known findings.",
+        "notes": "add_only=false because hook H5 rewrites one line: the header of the template-trial loop in DualConnector::remove_feature_templates_greedy now iterates a cfg-selected source (with the guard off it is the original expression). Everything else the hook commits contain is added code under #[cfg(vibrato_verif)]. See DESIGN.md sections 4 and 7 for hooks, fixes and known findings. The hash-order seam needs no change to /repo (it patches the ahash dependency of the simulator build only).",
         "not_applicable": na,
     }
     with open(f"{ROOT}/MANIFEST.json", "w") as f:
